@@ -266,7 +266,11 @@ impl GenerationPass for AvailableValuePass {
                 let still_valid = |value: &AvailableValue| {
                     !matches!(value, AvailableValue::RegisterWithScalar(reg, _) if redefined.contains(reg))
                 };
-                out_reg_n = retain_values(out_reg_n, |_, value| still_valid(value));
+                // The zero register cannot be written: an instruction that names
+                // it as its destination leaves no value behind
+                out_reg_n = retain_values(out_reg_n, |reg, value| {
+                    !reg.is_const_zero() && still_valid(value)
+                });
                 out_memory_n = retain_values(out_memory_n, |_, value| still_valid(value));
 
                 // If either of the outs changed, replace the old outs with the new outs
